@@ -446,12 +446,17 @@ static unsigned long v_ctx_lookup(spif_charptr_t n)
     __CPROVER_loop_invariant(!(vg_k < i) || vg_lk_at_k != 0)
     __CPROVER_decreases((unsigned long) ctx_idx + 1 - i)
     {
+#ifdef VERIF_LOOKUP_EXACT   /* unit C09.lookup_equiv: every slot compared for real, to compare with the macro */
+        r = strcasecmp((char *) n, (char *) context[i].name);
+        if (i == vg_k) vg_lk_at_k = r;
+#else
         if (i == vg_k) {
             r = strcasecmp((char *) n, (char *) context[i].name);
             vg_lk_at_k = r;
         } else {
             r = nondet_int();
         }
+#endif
         if (!r) {
             break;
         }
